@@ -21,3 +21,48 @@ def falsy_body(*args, _t, _n=1, **kwargs):
     if _n == 1:
         return FALSY[len(_t) % len(FALSY)]
     return (FALSY[i % len(FALSY)] for i in range(_n))
+
+
+# ---- values with a custom serde registered for their type (JobInstance.serdes), and a subclass of that type which is NOT
+# registered: the registry is keyed by the exact type, so the subclass travels by cloudpickle and keeps what it adds
+class Boxed:
+    def __init__(self, term):
+        self.term = term
+
+    def __eq__(self, other):
+        return type(self) is type(other) and self.__dict__ == other.__dict__
+
+    def __repr__(self):
+        return f"{type(self).__name__}({self.__dict__})"
+
+
+class BoxedMore(Boxed):
+    def __init__(self, term, mark):
+        super().__init__(term)
+        self.mark = mark
+
+
+def ser_boxed(v) -> bytes:
+    import pickle
+    return pickle.dumps(("boxed", v.term))      # knows nothing about what a subclass adds
+
+
+def des_boxed(b) -> Boxed:
+    import pickle
+    tag, term = pickle.loads(bytes(b))
+    assert tag == "boxed"
+    return Boxed(term)
+
+
+def boxed_body(*args, _t, _n=1, **kwargs):
+    term = ("T", _t, tuple(args), tuple(sorted(kwargs.items())))
+    if _n == 1:
+        return Boxed(term)
+    return (Boxed(("O", term, i)) for i in range(_n))
+
+
+def boxed_more_body(*args, _t, _n=1, **kwargs):
+    term = ("T", _t, tuple(args), tuple(sorted(kwargs.items())))
+    if _n == 1:
+        return BoxedMore(term, "mark-" + _t)
+    return (BoxedMore(("O", term, i), f"mark-{_t}-{i}") for i in range(_n))
